@@ -342,8 +342,32 @@ func genBoundaryBatch(prop string, r *Rng) *Case {
 	return &Case{Prop: prop, Check: "batch", Op: op}
 }
 
+// genCommonFactorBatch: an all-valid ZIP-215 batch with small prescribed scalar
+// halves and an entropy device whose every randomiser is 2 (or one power of
+// two). Whenever none of the products wraps around L, every scalar of the
+// batch equation shares that factor, the reduction ends on a scalar >= 2, and
+// the last step of the multi-scalar multiplication has to multiply for real.
+func genCommonFactorBatch(prop string, r *Rng) *Case {
+	n := []int{4, 4, 4, 5, 6}[r.Intn(5)]
+	op := &Op{Fn: "VerifyBatch", Seed: r.U64(), Opt: Opt{Zip: true}}
+	op.Entries = make([]Entry, n)
+	for i := range op.Entries {
+		s := make([]byte, 32)
+		copy(s, r.Bytes(8+r.Intn(16)))
+		op.Entries[i] = Entry{K: "torS", P: r.Intn(14), Q: r.Intn(8), X: hx(s), ML: r.Intn(30)}
+	}
+	op.Rd = &DevPlan{CSeed: r.U64(), Content: CTwo}
+	if r.Chance(1, 4) {
+		op.Rd.Content = CPow2
+	}
+	return &Case{Prop: prop, Check: "batch", Op: op}
+}
+
 func genBatchCase(prop string, r *Rng) *Case {
 	maxN := 200
+	if prop == "C17" && r.Chance(1, 12) {
+		return genCommonFactorBatch(prop, r)
+	}
 	if tierThorough {
 		maxN = 300
 	}
